@@ -404,6 +404,13 @@ def r14_7(ctx, rc):
     refcount_rule(ctx, rc, RESERVE, RELEASE)
 
 
+def r14_8(ctx, rc):
+    """The failure handler of build_file withdraws what was done before the
+    failing step, claim included (R10.2)."""
+    from .c10 import r10_2
+    r10_2(ctx, rc)
+
+
 RULES = [
     ('R14.1', 'reserve/release typestate on every exit', r14_1),
     ('R14.2', 'cache write: in rollback scope, backed up, compensated',
@@ -414,4 +421,5 @@ RULES = [
     ('R14.6', 'reuse registers only after the fallible apply step', r14_6),
     ('R14.7', 'release walk is the inverse of the reserve walk (R4.8)',
      r14_7),
+    ('R14.8', 'the build_file failure handler is complete (R10.2)', r14_8),
 ]
